@@ -373,6 +373,11 @@ class DistribServer:
         @param source      the name of the remote file to obtain a copy of
         @param noaction    if True, simulate the retrieval
         """
+        # we are about to write to filename: it no longer holds whatever other source it was first retrieved for
+        for src, cached in list(self._fileCache.items()):
+            if cached == filename and src != source:
+                del self._fileCache[src]
+
         if not self.NOCACHE and source in self._fileCache:
             if self.verbose > 1:
                 msg = "%s has already been retrieved" % source
@@ -381,7 +386,8 @@ class DistribServer:
 
                 print(msg, file=utils.stdinfo)
 
-            shutil.copy(self._fileCache[source], filename)
+            if self._fileCache[source] != filename:
+                shutil.copy(self._fileCache[source], filename)
 
             return filename
 
